@@ -478,6 +478,13 @@ fn compare_observers<P: Payload + Clone>(st: &mut Stats, ctx: &Ctx, b: &Bundle, 
         }
     }
     if ctx.opts.lookups {
+        compare_lookups(st, ctx, b, prefix, sim);
+    }
+}
+
+fn compare_lookups<P: Payload + Clone>(st: &mut Stats, ctx: &Ctx, b: &Bundle, prefix: &Option<Vec<Call>>, sim: &Sim<P>) {
+    let keep = ctx.opts.keep;
+    {
         st.lookup_checks += 1;
         st.check("C11", 1);
         let lk = match std::panic::catch_unwind(std::panic::AssertUnwindSafe(|| sim.lookups())) {
@@ -605,6 +612,10 @@ fn run_bundle<P: Payload + Clone>(ctx: &Ctx, b: &Bundle, prefix: &Option<Vec<Cal
         st.path_failures += 1;
         let p = b.path.last().map(|c| prop_of_op(&c.op)).unwrap_or("C13");
         st.violation(keep, Finding { prop: p.into(), kind: "path-state".into(), detail: "state after the call path differs from the specification's".into(), case: case_json(b, prefix, None, json!(b.st), json!(base)) });
+        // the lookup paths must agree with the ids handed out, whatever else went wrong (C11)
+        if ctx.opts.lookups && ctx.opts.observers {
+            compare_lookups(st, ctx, b, prefix, &sim);
+        }
         // laws of the real iterators themselves still apply in this state
         if ctx.opts.pulls {
             for slot in 1..=base.count {
@@ -769,6 +780,33 @@ fn run_bundle<P: Payload + Clone>(ctx: &Ctx, b: &Bundle, prefix: &Option<Vec<Cal
                     if d2.class != d.class || d2.new != d.new || orig.arena != f.arena || orig.ids != f.ids || orig.drain() != f.drain() {
                         st.violation(keep, Finding { prop: "C13".into(), kind: "clone-diverges".into(), detail: format!("{}(a={}, b={}) gives {} / slot {} on the original and {} / slot {} on its clone, or different arenas / reusable slots", c.op, c.a, c.b, d2.class, d2.new, d.class, d.new), case: case_json(b, prefix, Some(&c), json!(orig.proj()), json!(f.proj())) });
                     }
+                }
+            }
+        }
+    }
+    // C12 also for ids of removed nodes that were not handed out by an allocation but obtained from
+    // get_node_id(&node) on the removed node itself: every insert with such an id must be refused as well
+    if ctx.opts.outcomes && prefix.is_none() {
+        for slot in 1..=b.st.count {
+            if b.st.live.contains(&slot) {
+                continue;
+            }
+            let alias = std::panic::catch_unwind(std::panic::AssertUnwindSafe(|| sim.arena.get_node_id(&sim.arena.as_slice()[slot - 1]))).unwrap_or(None);
+            let id2 = match alias {
+                Some(i) if usize::from(i) == slot && i != sim.ids[slot - 1] => i,
+                _ => continue,
+            };
+            for o in b.out.iter() {
+                let is_ins = ["append", "prepend", "insert_after", "insert_before"].contains(&o.c.op.as_str());
+                if !(is_ins && (o.c.a == slot || o.c.b == slot)) && !(o.c.op == "append_value" && o.c.a == slot) {
+                    continue;
+                }
+                st.check("C12", 1);
+                let mut f = sim.fork();
+                f.ids[slot - 1] = id2;
+                let d = f.apply(&o.c);
+                if !o.res.contains(&d.class) || f.arena != sim.arena {
+                    st.violation(keep, Finding { prop: "C12".into(), kind: "removed-alias".into(), detail: format!("{}(a={}, b={}) with the id that get_node_id() reports for the removed node in slot {} -> {} (allowed {:?}), arena {}", o.c.op, o.c.a, o.c.b, slot, d.class, o.res, if f.arena != sim.arena { "CHANGED" } else { "unchanged" }), case: case_json(b, prefix, Some(&o.c), json!(o.res), json!(d)) });
                 }
             }
         }
